@@ -3,7 +3,7 @@ import H5V.Model.Utf8
 /- engine `utf8`:
    `dec <chunks>`  chunks = bytes in hex, `|`-separated → sink calls `t:<hex>` / `e`, `;`-separated
    `std <bytes>`   the modelled `str::from_utf8` → `ok` | `err <valid_up_to> <error_len|->`
-   `enc …`, `parse …`, `front …` exercise the real library only (no model): answer `no-model`.  -/
+   `enc …`, `encd …`, `parse …`, `front …` exercise the real library only (no model): answer `no-model`.  -/
 namespace H5V.Model.Utf8Driver
 open H5V.Proto H5V.Model.Utf8
 
@@ -36,6 +36,7 @@ def runCase (fields : List String) : String :=
       | .ok => "ok"
       | .err v e => "err " ++ toString v ++ " " ++ (match e with | some n => toString n | none => "-")
   | ["enc", _, _] => "no-model"
+  | ["encd", _, _, _] => "no-model"
   | ["parse", _, _] => "no-model"
   | ["front", _, _] => "no-model"
   | _ => "bad-case"
